@@ -8,10 +8,10 @@ Import ListNotations.
 Lemma up_errors_nil s : up_errors s [] = s.
 Proof. destruct s; unfold up_errors; simpl; rewrite app_nil_r; reflexivity. Qed.
 
-(* a hydrogen line: lexes without diagnostics to an atom whose element column reads H *)
+(* a hydrogen line: lexes without diagnostics to an atom record whose atom gets hydrogen as its element *)
 Definition hydrogen_line (ao loose : bool) (nl : Z * text) : bool :=
   match lex_line (fst nl) (snd nl) ao loose with
-  | inl (LAtom _ b _ _ _ _ _, []) => text_eqb (ab_element b) (stext "H")
+  | inl (LAtom _ b _ _ _ _ _, []) => is_hydrogen (ab_element b) (ab_name b)
   | _ => false
   end.
 Lemma pdb_hydrogen_line_skipped fm ao loose s nl : hydrogen_line ao loose nl = true -> step_line true fm ao loose s nl = s.
@@ -23,7 +23,7 @@ Proof.
 Qed.
 Lemma pdb_other_line_same fm ao loose s nl : hydrogen_line ao loose nl = false ->
   (forall b, match lex_line (fst nl) (snd nl) ao loose with
-             | inl (LAtom _ b' _ _ _ _ _, _ :: _) => b' = b -> text_eqb (ab_element b) (stext "H") = false
+             | inl (LAtom _ b' _ _ _ _ _, _ :: _) => b' = b -> is_hydrogen (ab_element b) (ab_name b) = false
              | _ => True end) ->
   step_line true fm ao loose s nl = step_line false fm ao loose s nl.
 Proof.
@@ -38,7 +38,7 @@ Qed.
    diagnostic stays; such a line is excluded by the hypothesis) *)
 Theorem pdb_discard_hydrogens_is_a_filter fm ao loose : forall lines s,
   (forall nl, In nl lines -> forall b, match lex_line (fst nl) (snd nl) ao loose with
-             | inl (LAtom _ b' _ _ _ _ _, _ :: _) => b' = b -> text_eqb (ab_element b) (stext "H") = false
+             | inl (LAtom _ b' _ _ _ _ _, _ :: _) => b' = b -> is_hydrogen (ab_element b) (ab_name b) = false
              | _ => True end) ->
   fold_left (step_line true fm ao loose) lines s =
   fold_left (step_line false fm ao loose) (filter (fun nl => negb (hydrogen_line ao loose nl)) lines) s.
@@ -58,21 +58,24 @@ Lemma q_err_nil s : q_err s [] = s.
 Proof. destruct s; unfold q_err; simpl; rewrite app_nil_r; reflexivity. Qed.
 
 Definition hydrogen_row (hdr : list text) (row : list cval) : bool :=
-  match fst (column get_text' hdr row "atom_site.type_symbol") with
-  | Some e => text_eqb e (stext "H")
-  | None => false
+  match fst (column get_text' hdr row "atom_site.type_symbol"), fst (column get_text' hdr row "atom_site.label_atom_id") with
+  | Some e, Some n => is_hydrogen e n
+  | _, _ => false
   end.
 Lemma cif_hydrogen_row_skipped fo hdr s row : hydrogen_row hdr row = true -> atom_row true fo hdr s row = s.
 Proof.
   unfold hydrogen_row, atom_row. intros H. destruct (q_stop s); [reflexivity|].
   pose proof (column_text_no_error hdr row "atom_site.type_symbol") as E.
+  pose proof (column_text_no_error hdr row "atom_site.label_atom_id") as E4.
   destruct (column get_text' hdr row "atom_site.type_symbol") as [[e|] e1]; simpl in *; [|discriminate].
-  subst e1. rewrite H. cbn [andb]. apply q_err_nil.
+  destruct (column get_text' hdr row "atom_site.label_atom_id") as [[n|] e4]; simpl in *; [|discriminate].
+  subst e1 e4. rewrite H. cbn [andb app]. apply q_err_nil.
 Qed.
 Lemma cif_other_row_same fo hdr s row : hydrogen_row hdr row = false -> atom_row true fo hdr s row = atom_row false fo hdr s row.
 Proof.
   unfold hydrogen_row, atom_row. intros H. destruct (q_stop s); [reflexivity|].
   destruct (column get_text' hdr row "atom_site.type_symbol") as [[e|] e1]; simpl in *; [|reflexivity].
+  destruct (column get_text' hdr row "atom_site.label_atom_id") as [[n|] e4]; simpl in *; [|reflexivity].
   rewrite H. reflexivity.
 Qed.
 Theorem cif_discard_hydrogens_is_a_filter fo hdr : forall rows s,
